@@ -76,9 +76,19 @@ variable {fs : FS} {k : Kern} {lib : Lib} {cov : Ent → Prop} {z : Option Nat}
 theorem addStep_id (inv : InvOn cov z fs k lib) {e : Ent} (he : e ∈ fs.ents) (hd : inTreeDir e = true) (hc : cov e) :
     addStep fs (k, lib) e = (k, lib) := by
   obtain ⟨wd, h1, _, h3, h4⟩ := inv.watched he hd hc
+  -- the descriptor is known under this path only: nothing stale to drop
+  have hfil : lib.wdForPath.filter (fun x => x.2 != wd || x.1 == e.path) = lib.wdForPath := by
+    rw [List.filter_eq_self]
+    intro x hx
+    by_cases hxw : x.2 = wd
+    · have hl : lookupP lib.wdForPath x.1 = some x.2 := lookupP_of_mem inv.wfpNodup (by cases x; exact hx)
+      have := inv.wfpInv _ _ hl
+      rw [hxw, h3] at this
+      simp [Option.some.inj this]
+    · simp [hxw]
   unfold addStep addWatch
   simp only [inv.wf.find_mem he, h1]
-  rw [setP_id inv.wfpNodup h4, setW_id inv.pfwNodup h3]
+  rw [hfil, setP_id inv.wfpNodup h4, setW_id inv.pfwNodup h3]
 
 theorem addTreeWatches_id (inv : InvOn cov z fs k lib) (p : P)
     (h : ∀ e ∈ (fs.find? p).toList ++ (fs.descendants p).filter (·.isDir), e ∈ fs.ents ∧ inTreeDir e = true ∧ cov e) :
